@@ -91,8 +91,8 @@ def run(prog, rep):
     quadrature_tables(prog, rep)
     for c in SC.DISTS:
         prog.cls(c)
-    prog.method("LifetimeModel", "compute_survival_factor")
-    prog.method("LifetimeModel", "compute_outflow_pdf")
+    prog.method("LifetimeModel", "sf")
+    prog.method("LifetimeModel", "pdf")
     jobs = [("tables", cfg) for cfg in SC.table_configs(rep.tier)]
     run_stock_property(prog, rep, "C08", jobs, {"sf-oracle": "C08.table-equals-distribution", "pdf-oracle": "C08.table-validity", "sf-valid": "C08.table-validity"})
     rep.rules["C08.table-equals-distribution"]["floor"] = 60
